@@ -6,8 +6,11 @@ import time
 from pathlib import Path
 
 VERIF = Path(__file__).resolve().parents[2]
-EVIDENCE_DIR = VERIF / "evidence"
-REPLAY_DIR = VERIF / "replays"
+# VERIF_OUT redirects evidence and replays (used when a check is run against a deliberately broken tree - mc.core.seeded -
+# so that the evidence under /verif always describes the unchanged tree)
+_OUT = Path(os.environ["VERIF_OUT"]) if os.environ.get("VERIF_OUT") else VERIF
+EVIDENCE_DIR = _OUT / "evidence"
+REPLAY_DIR = _OUT / "replays"
 
 
 def seed() -> int:
@@ -87,7 +90,7 @@ class Report:
         }
         if self.notes:
             ev["coverage"]["notes"] = self.notes
-        EVIDENCE_DIR.mkdir(exist_ok=True)
+        EVIDENCE_DIR.mkdir(parents=True, exist_ok=True)
         (EVIDENCE_DIR / f"{self.prop}.json").write_text(json.dumps(ev, indent=1, default=str))
         for fid, (n, what, ex) in sorted(self.known.items()):
             print(f"KNOWN-FINDING: property={self.prop} {fid}: {what} ({n} cases" + (f"; e.g. {ex}" if ex else "") + ")")
